@@ -2,6 +2,7 @@ import Tcell.Model.Parser
 import Tcell.Model.Pipeline
 import Driver.Util
 import Driver.Env
+import Driver.Parse
 /-
 Engine "pipe" (C05, C06), model side.
 
@@ -209,8 +210,10 @@ def runTrace (env : Env) (rest : String) : String :=
     match env.lookup "xterm-256color" with
     | none => "no-entry"
     | some ti =>
-      let pcfg := cfgOf {} ti decUtf8 80 24
-      let x : Ctx := { P := parserOf pcfg, c := { eqCap := 10, kcCap := 10, chCap := chCapOf toks, fixed := var == "variant=stopq" } }
+      -- `variant=pinned|stopq[+x11fix][+keycaps][+clipfix][+sgrfix]`: shutdown variant, then the parser's known-defect sites
+      let (shut, pv) := Parse.parseName var
+      let pcfg := cfgOf pv ti decUtf8 80 24
+      let x : Ctx := { P := parserOf pcfg, c := { eqCap := 10, kcCap := 10, chCap := chCapOf toks, fixed := shut == "variant=stopq" } }
       replay x (Pipeline.init ({} : PState)) 0 toks
   | [] => "bad-line"
 
